@@ -177,6 +177,9 @@ def check_minvar(x, m, nfft, sampling, tag, with_class=True):
 
 
 def replay(rep):
+    if rep['replay'].get('protocol') == 'values_only':
+        from props import _purity
+        return _purity.replay_protocol(rep['replay'])
     r = rep['replay']
     x = vlib.unhexv(r['x'])
     try:
@@ -318,3 +321,7 @@ def run(ctx):
             bad = [('minvar_raises/minvar/' + tag, 'raised %r on admissible input' % (e,))]
         for key, what in bad:
             ctx.violation(key, what, {'function': 'minvar', 'x': vlib.hexv(x), 'm': m, 'nfft': nfft, 'sampling': s})
+
+    # ---------------- results depend on the VALUES given only: call protocol (repeat, aliasing, buffer reuse, memory layout, integer / single-precision dtypes)
+    from props import _purity
+    _purity.run_protocol(ctx, ['minvar'])
